@@ -5,6 +5,15 @@
 //        threads >= 1, osf = parallel_multiway_merge_oversampling >= 1
 //        elem pod|log|own   pod: trivially copyable struct; log: copy operations are recorded;
 //                           own: additionally owns a heap cell (leaks / double frees -> ASan, LSan)
+//                           log/own are move-sensitive: a moved-from element is marked and poisoned, any later
+//                           read of it (copy, move, comparison, presence in the result) is a violation
+//                           str: std::string key (zero-padded decimal, keys >= 0, cmp lt|gt only)
+//                     containers other than std::vector (trivially copyable element, answered like pod):
+//                           deque   std::deque of 16-byte elements (32 per 512-byte block)
+//                           deque64 std::deque of 64-byte elements (8 per block)
+//                           strided user-defined random-access iterator with stride 2 over an array whose
+//                                   in-between guard elements must stay untouched
+//                           rev     std::reverse_iterator over an array
 // answer
 //   out <key:idx,...> cw <start+len,...> mw <start+len,...> live <delta> spec <0|1>
 //        out : the caller's range afterwards, elements tagged with their original index; for the
@@ -21,6 +30,9 @@
 // build of the same file reports data races.
 #include <algorithm>
 #include <atomic>
+#include <cstring>
+#include <deque>
+#include <iterator>
 #include <functional>
 #include <thread>
 #include <utility>
@@ -53,6 +65,24 @@ struct Pod {
     friend bool operator==(const Pod& a, const Pod& b) { return a.idx == b.idx; }
 };
 
+struct Big {       // 64 bytes: 8 elements per std::deque block
+    ll key; int idx; char pad[48];
+    friend bool operator<(const Big& a, const Big& b) { return poison(a.idx) < poison(b.idx); }
+    friend bool operator>(const Big& a, const Big& b) { return poison(a.idx) > poison(b.idx); }
+    friend bool operator==(const Big& a, const Big& b) { return a.idx == b.idx; }
+};
+static_assert(sizeof(Pod) == 16 && sizeof(Big) == 64, "element sizes chosen for the std::deque block size");
+
+struct SE {        // std::string key: a moved-from key is empty
+    std::string key; int idx;
+    friend bool operator<(const SE& a, const SE& b) { return poison(a.idx) < poison(b.idx); }
+    friend bool operator>(const SE& a, const SE& b) { return poison(a.idx) > poison(b.idx); }
+    friend bool operator==(const SE& a, const SE& b) { return a.idx == b.idx; }
+};
+
+static std::atomic<bool> g_moved_read{false};      // an element in moved-from state was read
+static const ll MOVED_KEY = -987654321;
+
 struct Track {
     const void* base = nullptr;   // the caller's range while a sort runs
     long n = 0;
@@ -80,24 +110,48 @@ struct Elem {
     ll key;
     int idx;
     ll* heap;
-    Elem() : key(0), idx(-1), heap(Own ? new ll(0) : nullptr) { g_tr.constructed.fetch_add(1, std::memory_order_relaxed); }
-    Elem(ll k, int i) : key(k), idx(i), heap(Own ? new ll(k) : nullptr) { g_tr.constructed.fetch_add(1, std::memory_order_relaxed); }
-    Elem(const Elem& o) : key(o.key), idx(o.idx), heap(Own ? new ll(*o.heap) : nullptr) {
-        g_tr.constructed.fetch_add(1, std::memory_order_relaxed);
+    bool moved = false;
+    static void note_copy_from(const Elem& o) {
+        if (o.moved) g_moved_read.store(true, std::memory_order_relaxed);
         long s = g_tr.index_of(&o);
         if (s >= 0) {
             g_tr.copy_by[s].store(t_serial.v, std::memory_order_relaxed);
             g_tr.copy_cnt[s].fetch_add(1, std::memory_order_relaxed);
         }
     }
-    Elem& operator=(const Elem& o) {
-        key = o.key; idx = o.idx;
-        if (Own) *heap = *o.heap;
+    void note_assigned() {
         long d = g_tr.index_of(this);
         if (d >= 0) {
             g_tr.assign_by[d].store(t_serial.v, std::memory_order_relaxed);
             g_tr.assign_cnt[d].fetch_add(1, std::memory_order_relaxed);
         }
+    }
+    Elem() : key(0), idx(-1), heap(Own ? new ll(0) : nullptr) { g_tr.constructed.fetch_add(1, std::memory_order_relaxed); }
+    Elem(ll k, int i) : key(k), idx(i), heap(Own ? new ll(k) : nullptr) { g_tr.constructed.fetch_add(1, std::memory_order_relaxed); }
+    Elem(const Elem& o) : key(o.key), idx(o.idx), heap(Own ? new ll(o.heap ? *o.heap : MOVED_KEY) : nullptr) {
+        g_tr.constructed.fetch_add(1, std::memory_order_relaxed);
+        note_copy_from(o);
+    }
+    Elem(Elem&& o) noexcept : key(o.key), idx(o.idx), heap(o.heap) {
+        g_tr.constructed.fetch_add(1, std::memory_order_relaxed);
+        note_copy_from(o);
+        o.heap = nullptr; o.moved = true; o.key = MOVED_KEY;
+    }
+    Elem& operator=(const Elem& o) {
+        if (o.moved) g_moved_read.store(true, std::memory_order_relaxed);
+        key = o.key; idx = o.idx; moved = false;
+        if (Own) { if (!heap) heap = new ll(0); *heap = o.heap ? *o.heap : MOVED_KEY; }
+        note_assigned();
+        return *this;
+    }
+    Elem& operator=(Elem&& o) noexcept {
+        if (o.moved) g_moved_read.store(true, std::memory_order_relaxed);
+        if (this != &o) {
+            key = o.key; idx = o.idx; moved = false;
+            if (Own) { delete heap; heap = o.heap; o.heap = nullptr; }
+            o.moved = true; o.key = MOVED_KEY;
+        }
+        note_assigned();
         return *this;
     }
     ~Elem() {
@@ -110,17 +164,24 @@ struct Elem {
     friend bool operator==(const Elem& a, const Elem& b) { return a.idx == b.idx; }
 };
 
+template <typename T> static inline bool is_moved(const T&) { return false; }
+template <bool Own> static inline bool is_moved(const Elem<Own>& e) { return e.moved; }
+static inline bool is_moved(const SE& e) { return e.key.empty(); }
+
 enum Cmp { LT, GT, HALF };
 template <typename T>
 struct Comp {
     Cmp c;
     bool operator()(const T& a, const T& b) const {
+        if (is_moved(a) || is_moved(b)) g_moved_read.store(true, std::memory_order_relaxed);
         switch (c) {
         case LT: return a.key < b.key;
         case GT: return a.key > b.key;
-        default: return (a.key >> 1) < (b.key >> 1);
+        default: return half(a.key) < half(b.key);
         }
     }
+    static ll half(ll k) { return k >> 1; }
+    static const std::string& half(const std::string& k) { return k; }       // not used (str: lt|gt only)
 };
 static bool lessk(Cmp c, ll a, ll b) {
     switch (c) { case LT: return a < b; case GT: return a > b; default: return (a >> 1) < (b >> 1); }
@@ -182,12 +243,49 @@ static void oracle(const std::vector<ll>& keys, const std::vector<KI>& got, Cmp 
     }
 }
 
+template <typename It>
+static void call_sort_it(It b, It e, bool stable, Cmp c, tlx::MultiwayMergeSplittingAlgorithm sa, size_t threads) {
+    Comp<typename std::iterator_traits<It>::value_type> comp{c};
+    if (stable) tlx::stable_parallel_mergesort(b, e, comp, threads, sa);
+    else tlx::parallel_mergesort(b, e, comp, threads, sa);
+}
 template <typename T>
 static void call_sort(std::vector<T>& v, bool stable, Cmp c, tlx::MultiwayMergeSplittingAlgorithm sa, size_t threads) {
-    Comp<T> comp{c};
-    if (stable) tlx::stable_parallel_mergesort(v.begin(), v.end(), comp, threads, sa);
-    else tlx::parallel_mergesort(v.begin(), v.end(), comp, threads, sa);
+    call_sort_it(v.begin(), v.end(), stable, c, sa, threads);
 }
+
+// user-defined random-access iterator: every second element of an array
+template <typename T>
+class StrideIt {
+    T* p_;
+public:
+    using iterator_category = std::random_access_iterator_tag;
+    using value_type = T;
+    using difference_type = std::ptrdiff_t;
+    using pointer = T*;
+    using reference = T&;
+    StrideIt() : p_(nullptr) {}
+    explicit StrideIt(T* p) : p_(p) {}
+    reference operator*() const { return *p_; }
+    pointer operator->() const { return p_; }
+    reference operator[](difference_type n) const { return p_[2 * n]; }
+    StrideIt& operator++() { p_ += 2; return *this; }
+    StrideIt operator++(int) { StrideIt t = *this; p_ += 2; return t; }
+    StrideIt& operator--() { p_ -= 2; return *this; }
+    StrideIt operator--(int) { StrideIt t = *this; p_ -= 2; return t; }
+    StrideIt& operator+=(difference_type n) { p_ += 2 * n; return *this; }
+    StrideIt& operator-=(difference_type n) { p_ -= 2 * n; return *this; }
+    friend StrideIt operator+(StrideIt a, difference_type n) { return StrideIt(a.p_ + 2 * n); }
+    friend StrideIt operator+(difference_type n, StrideIt a) { return StrideIt(a.p_ + 2 * n); }
+    friend StrideIt operator-(StrideIt a, difference_type n) { return StrideIt(a.p_ - 2 * n); }
+    friend difference_type operator-(StrideIt a, StrideIt b) { return (a.p_ - b.p_) / 2; }
+    friend bool operator==(StrideIt a, StrideIt b) { return a.p_ == b.p_; }
+    friend bool operator!=(StrideIt a, StrideIt b) { return a.p_ != b.p_; }
+    friend bool operator<(StrideIt a, StrideIt b) { return a.p_ < b.p_; }
+    friend bool operator>(StrideIt a, StrideIt b) { return a.p_ > b.p_; }
+    friend bool operator<=(StrideIt a, StrideIt b) { return a.p_ <= b.p_; }
+    friend bool operator>=(StrideIt a, StrideIt b) { return a.p_ >= b.p_; }
+};
 
 template <bool Own>
 static void run_tracked(const std::vector<ll>& keys, bool stable, Cmp c, tlx::MultiwayMergeSplittingAlgorithm sa,
@@ -203,8 +301,11 @@ static void run_tracked(const std::vector<ll>& keys, bool stable, Cmp c, tlx::Mu
         for (size_t i = 0; i < keys.size(); ++i) v.emplace_back(keys[i], (int)i);
         long c0 = g_tr.constructed.load(), d0 = g_tr.destroyed.load();
         g_tr.arm(v.data(), (long)v.size(), sizeof(T));
+        g_moved_read = false;
         call_sort(v, stable, c, sa, threads);
         g_tr.disarm();
+        if (g_moved_read.exchange(false)) bad.push_back("an element in moved-from state was read (copied, moved or compared)");
+        for (auto& e : v) if (e.moved) { bad.push_back("the sorted range contains an element in moved-from state"); break; }
         live_delta = (g_tr.constructed.load() - c0) - (g_tr.destroyed.load() - d0);
         for (auto& e : v) got.push_back(KI{e.key, e.idx});
         cw = windows(g_tr.copy_by, g_tr.copy_cnt);
@@ -244,16 +345,84 @@ static void do_ms(const std::vector<std::string>& t, const std::string& line) {
     try { threads = std::stol(t[4]); osf = std::stol(t[5]); keys = vh::csv(t[7]); } catch (...) { vh::answer("bad-op"); return; }
     if (threads < 1 || threads > 64 || osf < 1 || osf > 64) { vh::answer("bad-op"); return; }
     tlx::parallel_multiway_merge_oversampling = static_cast<size_t>(osf);
-    if (t[6] == "pod") {
+    const std::string& kind = t[6];
+    size_t nthreads = static_cast<size_t>(threads);
+    size_t n = keys.size();
+    auto finish = [&](const std::vector<KI>& got, std::vector<std::string> bad) {
+        std::vector<std::string> sortbad;
+        oracle(keys, got, c, stable, sortbad);
+        vh::answer("out " + show(got, c, stable) + " cw - mw - live 0 spec " + (sortbad.empty() ? "1" : "0"));
+        for (auto& b : sortbad) vh::viol(b + " in " + line);
+        for (auto& b : bad) vh::viol(b + " in " + line);
+    };
+    if (kind == "pod") {
         std::vector<Pod> v;
-        for (size_t i = 0; i < keys.size(); ++i) v.push_back(Pod{keys[i], (int)i});
-        call_sort(v, stable, c, sa, static_cast<size_t>(threads));
+        for (size_t i = 0; i < n; ++i) v.push_back(Pod{keys[i], (int)i});
+        call_sort(v, stable, c, sa, nthreads);
         std::vector<KI> got;
         for (auto& e : v) got.push_back(KI{e.key, e.idx});
+        finish(got, {});
+    }
+    else if (kind == "deque") {
+        std::deque<Pod> v;
+        for (size_t i = 0; i < n; ++i) v.push_back(Pod{keys[i], (int)i});
+        call_sort_it(v.begin(), v.end(), stable, c, sa, nthreads);
+        std::vector<KI> got;
+        for (auto& e : v) got.push_back(KI{e.key, e.idx});
+        finish(got, {});
+    }
+    else if (kind == "deque64") {
+        std::deque<Big> v;
+        for (size_t i = 0; i < n; ++i) { Big b; memset(&b, 0, sizeof b); b.key = keys[i]; b.idx = (int)i; v.push_back(b); }
+        call_sort_it(v.begin(), v.end(), stable, c, sa, nthreads);
+        std::vector<KI> got;
+        for (auto& e : v) got.push_back(KI{e.key, e.idx});
+        finish(got, {});
+    }
+    else if (kind == "strided") {
+        // elements at the odd positions, guards (never part of the range) at the even ones
+        std::vector<Pod> u(2 * n + 1);
+        for (size_t j = 0; j <= n; ++j) u[2 * j] = Pod{-777 - (ll)j, -1000 - (int)j};
+        for (size_t i = 0; i < n; ++i) u[2 * i + 1] = Pod{keys[i], (int)i};
+        StrideIt<Pod> b(u.data() + 1), e(u.data() + 1 + 2 * n);
+        call_sort_it(b, e, stable, c, sa, nthreads);
+        std::vector<KI> got;
+        for (size_t i = 0; i < n; ++i) got.push_back(KI{u[2 * i + 1].key, u[2 * i + 1].idx});
         std::vector<std::string> bad;
-        oracle(keys, got, c, stable, bad);
-        vh::answer("out " + show(got, c, stable) + " cw - mw - live 0 spec " + (bad.empty() ? "1" : "0"));
-        for (auto& b : bad) vh::viol(b + " in " + line);
+        for (size_t j = 0; j <= n; ++j)
+            if (u[2 * j].key != -777 - (ll)j || u[2 * j].idx != -1000 - (int)j) { bad.push_back("an element outside the iterator range was overwritten (strided iterator)"); break; }
+        finish(got, bad);
+    }
+    else if (kind == "rev") {
+        std::vector<Pod> u(n + 2);
+        u[0] = Pod{-777, -1000}; u[n + 1] = Pod{-778, -1001};
+        for (size_t i = 0; i < n; ++i) u[n - i] = Pod{keys[i], (int)i};
+        std::reverse_iterator<Pod*> b(u.data() + n + 1), e(u.data() + 1);
+        call_sort_it(b, e, stable, c, sa, nthreads);
+        std::vector<KI> got;
+        for (size_t i = 0; i < n; ++i) got.push_back(KI{u[n - i].key, u[n - i].idx});
+        std::vector<std::string> bad;
+        if (u[0].key != -777 || u[0].idx != -1000 || u[n + 1].key != -778 || u[n + 1].idx != -1001)
+            bad.push_back("an element outside the iterator range was overwritten (reverse iterator)");
+        finish(got, bad);
+    }
+    else if (kind == "str") {
+        if (c == HALF) { vh::answer("bad-op"); return; }
+        for (ll k : keys) if (k < 0) { vh::answer("bad-op"); return; }
+        std::vector<SE> v;
+        for (size_t i = 0; i < n; ++i) { char buf[32]; snprintf(buf, sizeof buf, "%012lld", keys[i]); v.push_back(SE{std::string(buf), (int)i}); }
+        g_moved_read = false;
+        call_sort(v, stable, c, sa, nthreads);
+        std::vector<std::string> bad;
+        if (g_moved_read.exchange(false)) bad.push_back("an element in moved-from state was read (compared)");
+        std::vector<KI> got;
+        bool moved_in_result = false;
+        for (auto& e : v) {
+            if (e.key.empty()) { moved_in_result = true; got.push_back(KI{MOVED_KEY, e.idx}); }
+            else got.push_back(KI{std::stoll(e.key), e.idx});
+        }
+        if (moved_in_result) bad.push_back("the sorted range contains an element in moved-from state");
+        finish(got, bad);
     }
     else if (t[6] == "log") run_tracked<false>(keys, stable, c, sa, static_cast<size_t>(threads), line);
     else if (t[6] == "own") run_tracked<true>(keys, stable, c, sa, static_cast<size_t>(threads), line);
